@@ -555,3 +555,19 @@ Section HashProof.
     cbn [run hstep hstep_gen]. rewrite E1, E2. cbn. repeat split.
   Qed.
 End HashProof.
+
+(* ---- documentation: what the proofs above rule out ---- *)
+(* Len of the pinned tree (before fix ace65f0) on a constant hash code *)
+Example hashmap_len_refuted_concrete :
+  let s := fst (run (hstep 0 (fun _ => 0) Z.eqb) hinit [MPut 1 10 None; MPut 2 20 None]) in
+  hlen_pinned s = 1 /\ length (hkeys s) = 2%nat /\ hlen s = 2.
+Proof. vm_compute. repeat split. Qed.
+
+(* If `formatting` did not clear `next`, a recycled node would drag its old chain along:
+   Put 1,2,3 (one chain); Delete 1 (pooled with next -> 2,3); Put 4 reusing that node. *)
+Definition formatting_keeps_next (n : node Z) : node Z := {| nkey := 0; nval := 0; nnext := nnext n |}.
+Example unformatted_node_leaks :
+  let ops := [MPut 1 10 None; MPut 2 20 None; MPut 3 30 None; MDelete 1; MPut 4 40 (Some 0%nat)] in
+  hkeys (fst (run (hstep_gen 0 (fun _ => 0) Z.eqb formatting_keeps_next) hinit ops)) = [2; 3; 4; 2; 3] /\
+  hkeys (fst (run (hstep 0 (fun _ => 0) Z.eqb) hinit ops)) = [2; 3; 4].
+Proof. vm_compute. split; reflexivity. Qed.
